@@ -665,7 +665,11 @@ func (ls *LState) raiseError(level int, format string, args ...interface{}) {
 		message = fmt.Sprintf(format, args...)
 	}
 	if level > 0 {
-		message = fmt.Sprintf("%v %v", ls.where(level-1, true), message)
+		// luaL_where: no position (and no separator) when there is no Lua function at that level -
+		// a Go function called from Go code, the body of a coroutine
+		if pos := ls.where(level-1, true); pos != "" {
+			message = fmt.Sprintf("%v %v", pos, message)
+		}
 	}
 	// a full registry gets a larger array for the message (the limit enforced on programs stays as it is)
 	ls.reg.pushAlways(LString(message))
